@@ -989,7 +989,7 @@ class Blackbody(Spectrum):
 
     def sample_vegamag(self, wave, temp, waveunit, valueunit):
         # Get Vega zero point data for requested band
-        E0, wave0 = vegaflux(self.band, waveunit)
+        E0, wave0 = vegaflux(self.band, waveunit, valueunit)
 
         # Compute exitance of Vega at equivalent wavelength in the observing
         # band
@@ -1071,14 +1071,14 @@ class Blackbody(Spectrum):
         wave = np.asarray(wave)
 
         # Get Vega zero point data for requested band
-        E0, wave0 = vegaflux(band, waveunit)
+        E0, wave0 = vegaflux(band, waveunit, valueunit)
 
         # Compute exitance of Vega at equivalent wavelength in the observing
         # band
-        M0 = planck_exitance(wave0, temp, waveunit, valueunit='photlam')
+        M0 = planck_exitance(wave0, temp, waveunit, valueunit)
 
         # Compute the source exitance over the desired wavelengths
-        M = planck_exitance(wave, temp, waveunit, valueunit='photlam')
+        M = planck_exitance(wave, temp, waveunit, valueunit)
 
         # Scale the source irradiance by the requested magnitude
         E = E0 * (M/M0)*10**(-0.4*mag)
